@@ -2,6 +2,8 @@
 """Prints the prompt given to a mutation sub-agent for one property (only the property text + its worktree)."""
 import json, sys
 pid = sys.argv[1]
+k0 = int(sys.argv[2]) if len(sys.argv) > 2 else 1
+flavour = sys.argv[3] if len(sys.argv) > 3 else ''
 for l in open('/verif/properties.jsonl'):
     p = json.loads(l)
     if p['id'] == pid:
@@ -20,11 +22,11 @@ STATEMENT: {p['statement']}
 SCOPE (inputs/schedules it quantifies over): {p['quantifier']['text']}
 Relevant source files: {', '.join(p['anchors']['files'])}
 
-TASK: produce TWO different, independent, realistic changes to the library's non-test source (the kind of thing a plausible refactoring, optimisation, clean-up or bug-fix-gone-wrong would introduce) that each BREAK this property for inputs inside the stated scope, while the code still compiles and the existing test suite still passes, unedited. Prefer subtle changes that need something specific to manifest (an unusual input, a particular interleaving or consumer speed, a crash or fault at a particular point, a multi-step sequence of operations, or two cooperating sites that each look fine alone) - NOT ones that ordinary use would expose at once, and not trivially "return garbage". The two changes should break different aspects/clauses of the property or different code sites.
+TASK: produce TWO different, independent, realistic changes to the library's non-test source (the kind of thing a plausible refactoring, optimisation, clean-up or bug-fix-gone-wrong would introduce) that each BREAK this property for inputs inside the stated scope, while the code still compiles and the existing test suite still passes, unedited. Prefer subtle changes that need something specific to manifest (an unusual input, a particular interleaving or consumer speed, a crash or fault at a particular point, a multi-step sequence of operations, or two cooperating sites that each look fine alone) - NOT ones that ordinary use would expose at once, and not trivially "return garbage". The two changes should break different aspects/clauses of the property or different code sites. {flavour}
 
-For each change k in (1, 2) deliver in {out}:
+For each change k in ({k0}, {k0+1}) deliver in {out}:
   - m<k>.diff : the change as a unified diff produced by `git diff` in the worktree root (must apply with `git apply m<k>.diff` to a clean checkout of the current HEAD). Only library source, no test files.
   - m<k>_demo_test.go : a self-contained Go test file (external test package or the package's own, your choice) that FAILS with the change applied and PASSES without it. State in the json where it must be placed.
   - m<k>.json : {{"property": "{pid}", "summary": "<what the change does>", "needs": "<what specific input/schedule/sequence is needed for the violation to manifest>", "demo_pkg_dir": "<directory relative to repo root where the demo test file must be copied>", "demo_run": "<go test command, run from repo root, that runs only the demo>"}}
 
-Verify all of this yourself before finishing: (a) with the change applied the whole suite still passes and the demo fails; (b) without the change the demo passes. When done, leave the worktree clean (`git checkout -- .` and delete any files you added, including the demo test). Reply with a 3-line summary per change.""")
+Verify all of this yourself before finishing: (a) with the change applied the whole suite still passes and the demo fails; (b) without the change the demo passes. When done, leave the worktree clean (`git checkout -- .` and delete any files you added, including the demo test). Wrap every test run in `timeout 300` (and `ulimit -v 8000000` for non-race runs) - a broken change may never return or may allocate memory very fast. Reply with a 3-line summary per change.""")
